@@ -37,6 +37,7 @@ package emitter
 //@ func renderLabelStatement
 //@   requires labelStmt != nil && labelStmt.Name != nil
 //@   ensures [C15:colons] piecesOf(result) == pcs(labelStmt.IsGlobal ? sprintf("%s::\n", labelStmt.Name.Value) : sprintf("%s:\n", labelStmt.Name.Value))
+//@   ensures [C04:label-noref] RefOf(result) == -2
 //@   ensures [C16:nomark] len(markersOf(result)) == 0
 //@ end
 
@@ -217,4 +218,86 @@ package emitter
 //@     invariant [C04:prefix-inv] forall k int :: {sb.pieces[k]} (0 <= k && k < len(old(sb.pieces))) ==> sb.pieces[k] == old(sb.pieces)[k]
 //@     invariant [C04:reg-inv] forall x int :: {RegMap(registerJumpChunk)[x]} old(RegMap(registerJumpChunk)[x]) ==> RegMap(registerJumpChunk)[x]
 //@     invariant [C04:reg-inv] forall k int :: {s.cases[k]} (0 <= k && k < $i) ==> RegMap(registerJumpChunk)[s.cases[k].destChunkID]
+//@ end
+
+// ---- chunks (C01, C04, C05, C10, C20) ----
+
+//@ pred ChunkTail(c *chunk) = (c.branchBehavior != nil ? TailOf(c.branchBehavior) : c.returnID)
+
+//@ func (c *chunk) renderBranching
+//@   fnparam registerJumpChunk implements RegFn
+//@   requires sb != nil && (c.branchBehavior != nil ==> BrWF(c.branchBehavior))
+//@   modifies sb.pieces, sb.nbytes, sb.markers, RegMap(registerJumpChunk)
+//@   ensures [C01,C05:ft-tail] result ==> ChunkTail(c) == nextChunkID
+//@   ensures [C05:no-goto-next] (ChunkTail(c) == nextChunkID && nextChunkID != -1) ==> result
+//@   ensures [C04:no-runoff] (nextChunkID == -1 && !(c.branchBehavior != nil && SwitchNoDefaultRet(c.branchBehavior))) ==> !result
+//@   ensures [C04:transfer] !result ==> (len(sb.pieces) > len(old(sb.pieces)) && IsTransfer(sb.pieces[len(sb.pieces) - 1]))
+//@   ensures [C04:ref-reg] forall k int :: {sb.pieces[k]} (len(old(sb.pieces)) <= k && k < len(sb.pieces) && RefOf(sb.pieces[k]) != -2) ==> RegMap(registerJumpChunk)[RefOf(sb.pieces[k])]
+//@   ensures [C04:reg-mono] forall k int :: {RegMap(registerJumpChunk)[k]} old(RegMap(registerJumpChunk)[k]) ==> RegMap(registerJumpChunk)[k]
+//@   ensures [C04:prefix] len(sb.pieces) >= len(old(sb.pieces)) && (forall k int :: {sb.pieces[k]} (0 <= k && k < len(old(sb.pieces))) ==> sb.pieces[k] == old(sb.pieces)[k])
+//@   ensures [C01:plain-return] (c.branchBehavior == nil && c.returnID == -1) ==> sb.pieces == snoc(old(sb.pieces), sprintf("\t%s\n", c.useEndTerminator ? "end" : "return"))
+//@   ensures [C01:plain-goto] (c.branchBehavior == nil && c.returnID != -1 && c.returnID != nextChunkID) ==> sb.pieces == snoc(old(sb.pieces), sprintf("\tgoto %s_%d\n", scriptName, c.returnID))
+//@ end
+
+// statements of a finalised chunk are commands and labels only
+//@ pred PlainStmts(c *chunk) = forall j int :: {c.statements[j]} (0 <= j && j < len(c.statements)) ==>
+//@      ((typeis(c.statements[j], ast.CommandStatement) && as(c.statements[j], ast.CommandStatement).Name != nil)
+//@    || (typeis(c.statements[j], ast.LabelStatement) && as(c.statements[j], ast.LabelStatement).Name != nil))
+
+//@ pred StmtPieceOK(p string, s ast.Statement) =
+//@      (typeis(s, ast.CommandStatement) ==> piecesOf(p) == CmdPieces(as(s, ast.CommandStatement)))
+//@   && (typeis(s, ast.LabelStatement) ==> piecesOf(p) == pcs(as(s, ast.LabelStatement).IsGlobal ? sprintf("%s::\n", as(s, ast.LabelStatement).Name.Value) : sprintf("%s:\n", as(s, ast.LabelStatement).Name.Value)))
+//@   && RefOf(p) == -2
+
+//@ pred LabelClash(s ast.Statement, chunkLabels map[string]struct{}, textLabels map[string]struct{}) =
+//@   typeis(s, ast.LabelStatement) && (indom(chunkLabels, as(s, ast.LabelStatement).Name.Value) || indom(textLabels, as(s, ast.LabelStatement).Name.Value))
+
+//@ func (c *chunk) renderStatements
+//@   requires sb != nil && PlainStmts(c)
+//@   modifies sb.pieces, sb.nbytes, sb.markers
+//@   ensures [C01,C10:stmts] result == nil ==> (len(sb.pieces) == len(old(sb.pieces)) + len(c.statements)
+//@        && (forall j int :: {sb.pieces[j]} (len(old(sb.pieces)) <= j && j < len(sb.pieces)) ==> StmtPieceOK(sb.pieces[j], c.statements[j - len(old(sb.pieces))])))
+//@   ensures [C04:prefix] len(sb.pieces) >= len(old(sb.pieces)) && (forall k int :: {sb.pieces[k]} (0 <= k && k < len(old(sb.pieces))) ==> sb.pieces[k] == old(sb.pieces)[k])
+//@   ensures [C04,C20:clash] result == nil ==> (forall j int :: {c.statements[j]} (0 <= j && j < len(c.statements)) ==> !LabelClash(c.statements[j], chunkLabels, textLabels))
+//@   ensures [C04,C20:clash-err] result != nil ==> (exists j int :: 0 <= j && j < len(c.statements) && LabelClash(c.statements[j], chunkLabels, textLabels)
+//@        && boxis(result, parser.ParseError) && result.LineNumberStart == as(c.statements[j], ast.LabelStatement).Token.LineNumber)
+//@   loop 1
+//@     invariant [C01,C10:stmts-inv] len(sb.pieces) == len(old(sb.pieces)) + $i && $i <= len(c.statements)
+//@     invariant [C01,C10:stmts-inv] forall j int :: {sb.pieces[j]} (len(old(sb.pieces)) <= j && j < len(sb.pieces)) ==> StmtPieceOK(sb.pieces[j], c.statements[j - len(old(sb.pieces))])
+//@     invariant [C04:prefix-inv] forall k int :: {sb.pieces[k]} (0 <= k && k < len(old(sb.pieces))) ==> sb.pieces[k] == old(sb.pieces)[k]
+//@     invariant [C04,C20:clash-inv] forall j int :: {c.statements[j]} (0 <= j && j < $i) ==> !LabelClash(c.statements[j], chunkLabels, textLabels)
+//@ end
+
+// ---- chunk ordering (C05, C17, C18) ----
+
+// the final chunk map has exactly the ids 0..len-1, every chunk is present and its branch behaviour is well-formed
+//@ pred DenseChunks(chunks map[int]*chunk) = (forall k int :: {indom(chunks, k)} indom(chunks, k) <==> (0 <= k && k < len(chunks)))
+//@   && (forall k int :: {indom(chunks, k)} indom(chunks, k) ==> (chunks[k] != nil && (chunks[k].branchBehavior != nil ==> BrWF(chunks[k].branchBehavior))))
+
+//@ pred IsPerm(s seq[int], n int) = len(s) == n
+//@   && (forall a int :: {s[a]} (0 <= a && a < len(s)) ==> (0 <= s[a] && s[a] < n))
+//@   && (forall a int, b int :: {s[a], s[b]} (0 <= a && a < b && b < len(s)) ==> s[a] != s[b])
+
+//@ func optimizeChunkOrder
+//@   requires DenseChunks(chunks)
+//@   ensures [C05,C17:perm] IsPerm(result, len(chunks)) && (len(chunks) > 0 ==> result[0] == 0)
+//@   loop 1
+//@     invariant [C05:unvisited-init] len(unvisited) == $n && (forall k int :: {indom(unvisited, k)} indom(unvisited, k) <==> has($visited, k))
+//@     invariant [C05:unvisited-init] forall k int :: {has($visited, k)} has($visited, k) ==> indom(chunks, k)
+//@   loop 2
+//@     use card(unvisited)
+//@     invariant [C05:order-inv] 1 <= len(chunkIDs) && len(chunkIDs) <= len(chunks) && chunkIDs[0] == 0 && 1 <= i && i <= len(chunks)
+//@     invariant [C05:order-inv] forall a int :: {chunkIDs[a]} (0 <= a && a < len(chunkIDs)) ==> (0 <= chunkIDs[a] && chunkIDs[a] < len(chunks) && !indom(unvisited, chunkIDs[a]))
+//@     invariant [C05:order-inv] forall a int, b int :: {chunkIDs[a], chunkIDs[b]} (0 <= a && a < b && b < len(chunkIDs)) ==> chunkIDs[a] != chunkIDs[b]
+//@     invariant [C05:order-inv] forall k int :: {indom(unvisited, k)} indom(unvisited, k) ==> (i <= k && k < len(chunks))
+//@     invariant [C05:order-inv] len(unvisited) == len(chunks) - len(chunkIDs)
+//@     decreases len(chunks) - len(chunkIDs)
+//@   loop 3
+//@     use card(unvisited)
+//@     invariant [C05:order-inv] 1 <= len(chunkIDs) && len(chunkIDs) < len(chunks) && chunkIDs[0] == 0 && 1 <= i && i <= len(chunks)
+//@     invariant [C05:order-inv] chunkIDs == outer(chunkIDs) && unvisited == outer(unvisited) && len(unvisited) == len(chunks) - len(chunkIDs)
+//@     invariant [C05:order-inv] forall a int :: {chunkIDs[a]} (0 <= a && a < len(chunkIDs)) ==> (0 <= chunkIDs[a] && chunkIDs[a] < len(chunks) && !indom(unvisited, chunkIDs[a]))
+//@     invariant [C05:order-inv] forall a int, b int :: {chunkIDs[a], chunkIDs[b]} (0 <= a && a < b && b < len(chunkIDs)) ==> chunkIDs[a] != chunkIDs[b]
+//@     invariant [C05:order-inv] forall k int :: {indom(unvisited, k)} indom(unvisited, k) ==> (i <= k && k < len(chunks))
+//@     decreases len(chunks) - i
 //@ end
